@@ -68,7 +68,8 @@ class ChainHist(Engine):
             elif r < 0.72:
                 a = {'op': 'parse', 'i': rng.randrange(1 << 16), 'edit': None}
                 if rng.random() < 0.35:
-                    a['edit'] = {'how': rng.choice(['sub', 'del', 'ins', 'upper', 'swapcase1', 'trunc', 'dup', 'fold', 'kelvin', 'fullwidth', 'newline', 'newline', 'crlf', 'space', 'tab', 'nul', 'leading-space', 'bom']), 'pos': rng.randrange(1 << 16),
+                    a['edit'] = {'how': rng.choice(['sub', 'del', 'ins', 'upper', 'swapcase1', 'trunc', 'dup', 'fold', 'kelvin', 'fullwidth', 'newline', 'newline', 'crlf', 'space', 'tab', 'nul', 'leading-space', 'bom',
+                                                        'uri', 'uri', 'uri-upper', 'uri-query', 'uri-slashes', 'quoted', 'angle', 'trailing-dot', 'trailing-comma', 'label']), 'pos': rng.randrange(1 << 16),
                                  'ch': rng.choice('qpzry9x8gf2tvdw0s3jn54khce6mua7l123456789ABCDEFGHJKLMNPQRSTUVWXYZabcdefghijkmnopqrstuvwxyz0OIl')}
             elif r < 0.8:
                 a = {'op': 'parse_wv', 'version': rng.randint(1, 16), 'prog': gen.rhex(rng, rng.choice([2, 20, 32, 40, rng.randint(2, 40)])),
@@ -391,6 +392,11 @@ class ChainHist(Engine):
             if how in ('leading-space', 'bom'):
                 return c + text
             return (text.upper() if p % 2 else text) + c
+        # what user interfaces wrap around an address: a BIP21 payment link, quotes, brackets, punctuation
+        deco = {'uri': 'bitcoin:%s', 'uri-upper': 'BITCOIN:%s', 'uri-query': 'bitcoin:%s?amount=0.1', 'uri-slashes': 'bitcoin://%s', 'quoted': '"%s"', 'angle': '<%s>',
+                'trailing-dot': '%s.', 'trailing-comma': '%s,', 'label': 'Address: %s'}
+        if how in deco:
+            return deco[how] % (text.upper() if (how == 'uri-upper' and text == text.lower()) else text)
         if how == 'kelvin':
             u = text.upper()
             i = u.find('K', p)
